@@ -4,6 +4,7 @@
 -/
 import NiVerif.Proofs.ConvLemmas
 import NiVerif.Model.Mixed
+import NiVerif.Gen.TimeDeltaFloat
 
 namespace Props.C04
 open Gen.TimeDelta Model.Conv
@@ -185,5 +186,120 @@ end Abs
 -- non-vacuity
 example : Py.dtTdInRange 86400000001 ∧ Py.htTdInRange (-5) ∧ InI128 (T + 1) := by
   unfold Py.dtTdInRange Py.htTdInRange Py.MAX_DAYS Py.US_PER_DAY Py.YS_PER_DAY InI128 T; omega
+
+end Props.C04
+
+/-! ### TimeDelta(float seconds): the generated float branch of `_to_ticks` (Gen/TimeDeltaFloat.lean) -/
+namespace Props.C04
+open Py
+
+/-- rounding to the nearest integer moves a dyadic value by at most one half -/
+theorem round_error (x : Dyad) : 2 * (Dyad.round x * 2 ^ x.exp - x.num).natAbs ≤ 2 ^ x.exp := by
+  unfold Dyad.round
+  simp only
+  have hd : (0 : Int) < 2 ^ x.exp := Int.pow_pos (by decide)
+  have h1 := Int.emod_add_mul_ediv x.num (2 ^ x.exp)
+  have h2 := Int.emod_nonneg x.num (by omega : (2 : Int) ^ x.exp ≠ 0)
+  have h3 := Int.emod_lt_of_pos x.num hd
+  have hnat : ((2 ^ x.exp : Nat) : Int) = (2 : Int) ^ x.exp := by simp
+  generalize hD : (2 : Int) ^ x.exp = D at *
+  generalize x.num / D = q at *
+  generalize x.num % D = r at *
+  have hq : ∀ k : Int, k * D - x.num = (k - q) * D - r := by
+    intro k
+    have : x.num = r + D * q := h1.symm
+    rw [this, Int.sub_mul, Int.mul_comm q D]; omega
+  have e1 : (q + 1 - q) * D = D := by
+    have : q + 1 - q = 1 := by omega
+    rw [this, Int.one_mul]
+  have e0 : (q - q) * D = 0 := by
+    have : q - q = 0 := by omega
+    rw [this, Int.zero_mul]
+  have goalNat : ∀ k : Int, (k = q ∧ 2 * r ≤ D) ∨ (k = q + 1 ∧ D ≤ 2 * r) → 2 * (k * D - x.num).natAbs ≤ 2 ^ x.exp := by
+    intro k hk
+    have hcast : ((2 ^ x.exp : Nat) : Int) = D := hnat
+    rcases hk with ⟨rfl, hr⟩ | ⟨rfl, hr⟩
+    · rw [hq, e0]; omega
+    · rw [hq, e1]; omega
+  split
+  · exact goalNat _ (Or.inr ⟨rfl, by omega⟩)
+  · split
+    · exact goalNat _ (Or.inl ⟨rfl, by omega⟩)
+    · split
+      · exact goalNat _ (Or.inl ⟨rfl, by omega⟩)
+      · exact goalNat _ (Or.inr ⟨rfl, by omega⟩)
+
+theorem round_int (n : Int) : Dyad.round ⟨n, 0⟩ = n := by
+  unfold Dyad.round
+  simp only [Int.pow_zero, Int.ediv_one, Int.emod_one]
+  split
+  · omega
+  · split
+    · rfl
+    · omega
+
+/-- what the generated code computes: whole·2^64 + round(frac·2^64), with x = whole + frac -/
+theorem to_ticks_float_unfold (x : Dyad) :
+    Gen.TimeDeltaFloat.to_ticks_float x =
+      Int.tdiv x.num (2 ^ x.exp) * 2 ^ 64
+        + Dyad.round ⟨(x.num - Int.tdiv x.num (2 ^ x.exp) * 2 ^ x.exp) * 2 ^ 64, x.exp⟩ := by
+  unfold Gen.TimeDeltaFloat.to_ticks_float Dyad.modf Dyad.toInt Dyad.mulInt
+  simp only [Gen.TimeDeltaFloat._TICKS_PER_SECOND, Nat.pow_zero, Int.pow_zero, Int.tdiv_one]
+  rfl
+
+/-- **TimeDelta(float) is the nearest tick**: for every finite float x = num/2^exp the tick count t satisfies
+    |t − x·2^64| ≤ 1/2 (stated as 2·|t·2^exp − num·2^64| ≤ 2^exp) -/
+theorem float_to_ticks_nearest (x : Dyad) :
+    2 * (Gen.TimeDeltaFloat.to_ticks_float x * 2 ^ x.exp - x.num * 2 ^ 64).natAbs ≤ 2 ^ x.exp := by
+  rw [to_ticks_float_unfold]
+  have h := round_error ⟨(x.num - Int.tdiv x.num (2 ^ x.exp) * 2 ^ x.exp) * 2 ^ 64, x.exp⟩
+  simp only at h
+  generalize Int.tdiv x.num (2 ^ x.exp) = w at *
+  generalize Dyad.round ⟨(x.num - w * 2 ^ x.exp) * 2 ^ 64, x.exp⟩ = q at *
+  have : (w * 2 ^ 64 + q) * 2 ^ x.exp - x.num * 2 ^ 64 = q * 2 ^ x.exp - (x.num - w * 2 ^ x.exp) * 2 ^ 64 := by
+    rw [Int.add_mul, Int.sub_mul]
+    have : w * 2 ^ 64 * 2 ^ x.exp = w * 2 ^ x.exp * 2 ^ 64 := by
+      rw [Int.mul_assoc, Int.mul_assoc, Int.mul_comm (2 ^ 64) (2 ^ x.exp)]
+    omega
+  rw [this]
+  exact h
+
+/-- integers and floats with at most 64 fractional bits convert exactly -/
+theorem float_to_ticks_exact (x : Dyad) (h : x.exp ≤ 64) :
+    Gen.TimeDeltaFloat.to_ticks_float x * 2 ^ x.exp = x.num * 2 ^ 64 := by
+  have hn := float_to_ticks_nearest x
+  -- t·2^e − num·2^64 is a multiple of 2^e that is at most 2^e/2 in absolute value
+  obtain ⟨k, hk⟩ : ∃ k : Nat, 64 = x.exp + k := ⟨64 - x.exp, by omega⟩
+  have hpow : (2 : Int) ^ 64 = 2 ^ x.exp * 2 ^ k := by rw [hk, Int.pow_add]
+  have hdiff : Gen.TimeDeltaFloat.to_ticks_float x * 2 ^ x.exp - x.num * 2 ^ 64
+      = (Gen.TimeDeltaFloat.to_ticks_float x - x.num * 2 ^ k) * 2 ^ x.exp := by
+    rw [Int.sub_mul, hpow]
+    have : x.num * (2 ^ x.exp * 2 ^ k) = x.num * 2 ^ k * 2 ^ x.exp := by
+      rw [Int.mul_comm (2 ^ x.exp) (2 ^ k), Int.mul_assoc]
+    rw [this]
+  rw [hdiff] at hn
+  have hd : (0 : Int) < 2 ^ x.exp := Int.pow_pos (by decide)
+  have hnat : ((2 ^ x.exp : Nat) : Int) = (2 : Int) ^ x.exp := by simp
+  generalize Gen.TimeDeltaFloat.to_ticks_float x - x.num * 2 ^ k = z at *
+  have hz : z = 0 := by
+    apply Classical.byContradiction
+    intro hne
+    have : (2 : Int) ^ x.exp ≤ ((z * 2 ^ x.exp).natAbs : Int) := by
+      rw [Int.natAbs_mul]
+      have h1 : 1 ≤ z.natAbs := by omega
+      have : ((2 : Int) ^ x.exp).natAbs = 2 ^ x.exp := by
+        rw [Int.natAbs_pow]; rfl
+      rw [this]
+      have := Nat.mul_le_mul_right (2 ^ x.exp) h1
+      simp only [Nat.one_mul] at this
+      rw [← hnat]
+      exact_mod_cast this
+    omega
+  have : Gen.TimeDeltaFloat.to_ticks_float x * 2 ^ x.exp - x.num * 2 ^ 64 = 0 := by rw [hdiff, hz, Int.zero_mul]
+  omega
+
+-- 0.75 ticks rounds to 1 tick (truncation would give 0); 0.5 ticks rounds to the even 0; 1.5 ticks to 2
+example : Gen.TimeDeltaFloat.to_ticks_float ⟨3, 66⟩ = 1 ∧ Gen.TimeDeltaFloat.to_ticks_float ⟨1, 65⟩ = 0
+    ∧ Gen.TimeDeltaFloat.to_ticks_float ⟨3, 65⟩ = 2 ∧ Gen.TimeDeltaFloat.to_ticks_float ⟨-3, 1⟩ = -(3 * 2 ^ 63) := by decide +kernel
 
 end Props.C04
